@@ -83,7 +83,8 @@ class Packet:
         ep = ep[1:]
         dash = ep.find('-')
         attachment_count = 0
-        if dash > 0 and ep[0:dash].isdigit():
+        if self.packet_type in (BINARY_EVENT, BINARY_ACK) and dash > 0 \
+                and ep[0:dash].isdigit():
             if dash > 10:
                 raise ValueError('too many attachments')
             attachment_count = int(ep[0:dash])
